@@ -32,6 +32,10 @@ def level_values(level: int) -> dict:
     global _FACTORIES
     if _FACTORIES is None:
         _FACTORIES = [fl.FactoryManager() for _ in range(5)]
+        for k in (1, 3):  # two of the temporary factory managers know one more formula operator
+            f = _FACTORIES[k].function
+            f["//"] = fl.Function.Element("//", "Floor division", fl.Function.Element.Type.Operator, np.floor_divide, arity=2,
+                                          precedence=f.objects["/"].precedence, associativity=-1)
     return {
         "float_type": [np.float32, np.float16, np.float32, np.float16, np.float32][level],
         "decimals": [5, 0, 7, 1, 9][level],
@@ -149,7 +153,45 @@ def observe_helpers(acc: Acc, case: dict, model: dict, where: str) -> None:
     finish_helpers(acc, case, model, where)
 
 
+ARR64 = np.array([0.5, 0.25])  # a double-precision array that outlives every context
+
+
 def finish_helpers(acc: Acc, case: dict, model: dict, where: str) -> None:
+    # conversion helper: arrays that were created under other settings are converted to the float type in force
+    # (this group too is observed once per worker and distinct combination of the values it depends on)
+    ll = long_lived()
+    prev = ll.get("previous_array", ARR64)
+    key2 = (str(prev.dtype), np.dtype(model["float_type"]).name, id(model["factory_manager"]), model["atol"], model["rtol"], model["decimals"], where.split("@")[0])
+    if key2 in ll.setdefault("observed2", set()):
+        return finish_cheap(acc, case, model, where)
+    ll["observed2"].add(key2)
+    for label, arr in (("float64 array built at import time", ARR64), ("array built during the previous observation", ll.get("previous_array", ARR64))):
+        if fl.scalar(arr).dtype != np.dtype(model["float_type"]):
+            acc.violate("helper", {"helper": "scalar", "operand": label.split()[0]}, {**case, "where": where}, str(np.dtype(model["float_type"])),
+                        str(fl.scalar(arr).dtype), f"scalar({label}) has dtype {fl.scalar(arr).dtype}, the float type in force is {np.dtype(model['float_type'])}")
+    ll["previous_array"] = fl.scalar([0.5, 0.25])
+    # the formula tokeniser uses the operators of the factory manager in force
+    # (not in the freshly-imported state: reading settings.factory_manager would create the manager, i.e. change the state)
+    fm = model["factory_manager"]
+    has_floor = fm is not None and "//" in fm.function
+    want = "7 // 2 + 1" if has_floor else "7 / / 2 + 1"
+    got = fl.Function.format_infix("7//2+1") if fm is not None else want
+    if got != want:
+        acc.violate("helper", {"helper": "Function.format_infix"}, {**case, "where": where}, want, got,
+                    f"Function.format_infix('7//2+1') = {got!r}; the factory manager in force {'has' if has_floor else 'does not have'} the operator //")
+    # a term prints its height unless it is close to 1 under the tolerances in force
+    d = model["decimals"]
+    for h in (0.95, 1.0004):
+        is_one = abs(h - 1.0) <= model["atol"] + model["rtol"] * 1.0
+        want = "term: t Triangle " + " ".join(f"{v:.{d}f}" for v in [0.0, 0.5, 1.0] + ([] if is_one else [h]))
+        got = str(fl.Triangle("t", 0.0, 0.5, 1.0, h))
+        if got != want:
+            acc.violate("helper", {"helper": "Term.__str__"}, {**case, "where": where}, want, got,
+                        f"str(Triangle(height={h})) = {got!r} with atol={model['atol']} rtol={model['rtol']} decimals={d}; expected {want!r}")
+    finish_cheap(acc, case, model, where)
+
+
+def finish_cheap(acc: Acc, case: dict, model: dict, where: str) -> None:
     for x, y in ((1.0, 1.0005), (100.0, 111.0), (0.01, 0.0104), (0.0, 0.4), (0.0, 0.0625)):
         want_close = bool(abs(x - y) <= model["atol"] + model["rtol"] * abs(y))
         got_close = bool(fl.Op.is_close(x, y))
